@@ -15,7 +15,9 @@ WEIGHTS = [2.0, 1.0, -0.5, 3.0]
 
 OPS = {'ro': {'eqs': ["d/dt * z = c"], 'vars': {'z': 'output(0.25)', 'c': 0.5}},
        'fo': {'eqs': ["d/dt * z = c - 0.3*fb"], 'vars': {'z': 'output(0.25)', 'c': 0.5, 'fb': 'input(0.0)'}},
-       'to': {'eqs': ["d/dt * v = -v + u"], 'vars': {'v': 'output(0.1)', 'u': 'input(0.0)'}}}
+       'to': {'eqs': ["d/dt * v = -v + u"], 'vars': {'v': 'output(0.1)', 'u': 'input(0.0)'}},
+       # an operator that reads z of another operator of its own node
+       'rd': {'eqs': ["d/dt * q = -q + z"], 'vars': {'q': 'output(0.05)', 'z': 'input(0.0)'}}}
 
 
 def make(sources, targets, edges, feedback=False):
@@ -45,6 +47,9 @@ def cases(tier, seed):
     def add(spec, tag):
         for v in vecs:
             out.append({'spec': spec, 'vectorize': v, 'tag': tag, 'seed': seed})
+            if tier != 'quick' or tag in ('one', 'shared_source', 'feedback', 'two_operator_nodes', 'intra_node_reader'):
+                # Heun evaluates the function twice per step: the buffers still advance once per step
+                out.append({'spec': spec, 'vectorize': v, 'tag': tag, 'seed': seed, 'solver': 'heun'})
     D = DELAYS
     for d in D:
         add(make(['r'], ['a'], [edge('r', 'a', d, 0)]), 'one')
@@ -74,6 +79,15 @@ def cases(tier, seed):
         s = make(['r'], ['a', 'b'], [edge('r', 'a', d2, 0)])
         s['circuit']['edges'].append(['a/to/v', 'b/to/u', None, {'weight': 3.0, 'delay': d1}])
         add(s, 'chain')
+    # the delayed source variable is also read by another operator of its own node (which sees the present value)
+    for d1, d2 in itertools.product(D[1:], D[:3]):
+        for order in (('ro', 'rd'), ('rd', 'ro')):
+            tpls = {'M': [[o, {}] for o in order], 'Ta': [['to', {}]], 'Tb': [['to', {'v': 0.2}]]}
+            e = [['m/ro/z', 'a/to/u', None, {'weight': 2.0, 'delay': d1}], ['m/ro/z', 'b/to/u', None, {'weight': 1.0}]]
+            if d2 is not None:
+                e[1][3]['delay'] = d2
+            add({'ops': OPS, 'node_tpls': tpls, 'edge_tpls': {}, 'share': True,
+                 'circuit': {'name': 'net', 'nodes': {'m': 'M', 'a': 'Ta', 'b': 'Tb'}, 'edges': e}}, 'intra_node_reader')
     # matrix (Connectivity) edges: two connections that leave one population variable with their own delays
     from . import C16
     T = C16.DT
@@ -136,13 +150,14 @@ def run_case(case):
     outs = {f'o{i}': p for i, p in enumerate(m.state_vars())}
     try:
         circ = build.build_py(spec)
-        df = circ.run(simulation_time=T, step_size=DT, sampling_step_size=DT, outputs=dict(outs), solver='euler',
+        df = circ.run(simulation_time=T, step_size=DT, sampling_step_size=DT, outputs=dict(outs),
+                      solver=case.get('solver', 'euler'),
                       backend='default', vectorize=case['vectorize'], verbose=False, float_precision='float64',
                       clear=True)
     except Exception as e:
         sig['exc'] = type(e).__name__
         return viol('raises', detail=f'{type(e).__name__}: {e}'[:300])
-    rows = solvers.euler_delayed(m, DT, steps - 1)
+    rows = (solvers.heun_delayed if case.get('solver') == 'heun' else solvers.euler_delayed)(m, DT, steps - 1)
     res['evals'] = steps
     for k, p in outs.items():
         exp = np.array([r[p] for r in rows])
